@@ -193,6 +193,13 @@ func c27CanonicalDefs(r *verifkit.Run) {
 			o := &c27OverTime{fn: fn, rng: 2, inner: s, phi: 0.5}
 			cases = append(cases, c27Case{kind: "def/canonical", node: o, sel: s, ot: o})
 		}
+		// time(): 5 consecutive seconds around 1.79e9 — population variance exactly 2
+		for _, fn := range []string{"stdvar_over_time", "stddev_over_time", "avg_over_time"} {
+			for _, base := range []c27Node{&c27TimeNode{}, &c27Wrap{kind: "subbig", inner: &c27TimeNode{}}} {
+				o := &c27OverTime{fn: fn, rng: 5, inner: base, subquery: true}
+				cases = append(cases, c27Case{kind: "def/canonical-time", node: o, ot: o, big: true})
+			}
+		}
 		for _, c := range cases {
 			c27DoDef(r, w, st, sp, c, -1)
 		}
